@@ -477,6 +477,25 @@ func (g *Gen) Pipeline() Doc {
 		delete(unknownMarks, k)
 	}
 	sin, sout, kinds := g.steps("", 0, 1)
+	// presentation: every step followed by an alias of itself, with distinct
+	// anchor names or with one name that is redefined for every step
+	// (`- &a s0`, `- *a`, `- &a s1`, `- *a`); the denoted step list is s0 s0 s1 s1.
+	if a := g.pick("present.anchors", 3); a != 0 {
+		din, dout := Seq(), Seq()
+		var dk []string
+		for i, it := range sin.Items {
+			name := "a"
+			if a == 1 {
+				name = fmt.Sprintf("a%d", i)
+			}
+			it.Anchor = name
+			din.Items = append(din.Items, it, &N{AliasOf: it})
+			dout.Items = append(dout.Items, sout.Items[i], sout.Items[i].Clone())
+			dk = append(dk, kinds[i], kinds[i])
+		}
+		sin, sout, kinds = din, dout, dk
+		g.Trace = append(g.Trace, []string{"", "anchors=distinct-names", "anchors=one-name-redefined"}[a])
+	}
 	shape := g.pick("doc.shape", 2)
 	if shape == 1 {
 		g.Trace = append(g.Trace, "doc.shape=barelist")
